@@ -254,10 +254,41 @@ pub fn eval(out: &mut Out, req: &str) -> String {
     r.unwrap_or_else(|| "bad-op".to_string())
 }
 
+/// Does decoding this message cost more than any message this harness builds on purpose?  (A few bytes can
+/// announce a vector of 2^40 zero-sized elements; without a decoding quota the decoder — and the specification's
+/// reader — then iterate that many times.  The properties bound the work only under a quota, so such a message is
+/// not sent to an unmetered entry point: it would only stall the run.)
+fn costs_too_much(bytes: &[u8]) -> bool {
+    // every value skipped under a decoding quota: the accounting is the decoder's own
+    matches!(c07::decode(bytes, &candid::types::TypeEnv::new(), &[], Some(50_000_000), None), c07::Res::Quota)
+}
+
+fn unmetered_message(req: &str) -> Option<Vec<u8>> {
+    let mut it = req.split('\t');
+    let op = it.next()?;
+    let args: Vec<&str> = it.collect();
+    let unmetered = match op {
+        "wire.decode" | "wire.decodeSelf" => true,
+        "de.decode" => args.get(3) == Some(&"-"),
+        _ => false,
+    };
+    if unmetered {
+        sexp::unhx(args.first()?)
+    } else {
+        None
+    }
+}
+
 impl Ctx {
     pub fn emit(&mut self, req: &str, nontrivial: bool) -> String {
         if std::env::var_os("VERIF_PANIC_TRACE").is_some() {
             LAST_REQ.with(|p| *p.borrow_mut() = req.to_string());
+        }
+        if let Some(bytes) = unmetered_message(req) {
+            if costs_too_much(&bytes) {
+                self.out.stat("skipped:unmetered-message-over-50M-cost");
+                return "skip".to_string();
+            }
         }
         self.out.begin(req);
         let ans = eval(&mut self.out, req);
